@@ -7,6 +7,8 @@ import subprocess
 import sys
 import time
 
+_HERE = os.path.dirname(os.path.dirname(os.path.abspath(__file__)))
+
 
 def set_cookie_pair(name, value):
     from baize.wsgi import Response
@@ -76,9 +78,9 @@ def expires_probe():
 
 
 def check_tz(tz):
-    env = dict(os.environ, TZ=tz, PYTHONPATH=os.environ.get("VERIF_REPO", "/repo") + ":/verif")
+    env = dict(os.environ, TZ=tz, PYTHONPATH=os.environ.get("VERIF_REPO", "/repo") + ":" + _HERE)
     p = subprocess.run([sys.executable, "-c", "import json; from native import c16; print(json.dumps(c16.expires_probe()))"],
-                       capture_output=True, text=True, env=env, timeout=60, cwd="/verif")
+                       capture_output=True, text=True, env=env, timeout=60, cwd=_HERE)
     if p.returncode:
         return ["probe failed under TZ=%s: %s" % (tz, p.stderr[-300:])]
     out = json.loads(p.stdout)
